@@ -5,6 +5,7 @@ From Coq Require Import String List NArith ZArith Bool.
 Import ListNotations.
 Require Import Verif.Export.OasTypes Verif.Export.OasExport Verif.Export.SwExport Verif.Gen.ExportTables Verif.Base.Harness.
 Require Import Verif.Export.CliExport Verif.Gen.ExportCli.
+Require Import Verif.Export.OasInfo Verif.Gen.ExportInfo.
 
 (* the model of the CURRENT source: the tables are the regenerated ones (this file does not depend on the obligations
    of OasCurrent.v, so the comparison keeps running when one of them breaks) *)
@@ -103,3 +104,25 @@ Definition c12c_ok (c:c12c_case) : bool :=
                (map (fun w => (w_file w, w_exporter w, ser_format (w_ser w), w_app w)) ws) fs
   | _, _ => false
   end.
+
+(* ---- info / servers / host (Export/OasInfo.v): one case = (name, long name and attributes of the compiled application, the info
+   of the OpenAPI 3 document and of the Swagger document as the real exporters wrote them; None = that export failed) *)
+Definition amap_eqb (a b:amap) : bool :=
+  list_eqb (fun x y : N * (string * string) =>
+              N.eqb (fst x) (fst y) && String.eqb (fst (snd x)) (fst (snd y)) && String.eqb (snd (snd x)) (snd (snd y))) a b.
+Definition info3_eqb (a b:info3) : bool :=
+  String.eqb (i3_title a) (i3_title b) && String.eqb (i3_version a) (i3_version b) && String.eqb (i3_desc a) (i3_desc b)
+  && String.eqb (i3_cname a) (i3_cname b) && String.eqb (i3_cemail a) (i3_cemail b) && String.eqb (i3_curl a) (i3_curl b)
+  && amap_eqb (i3_ext a) (i3_ext b)
+  && list_eqb (fun x y : string * string => String.eqb (fst x) (fst y) && String.eqb (snd x) (snd y)) (i3_servers a) (i3_servers b).
+Definition info2_eqb (a b:info2) : bool :=
+  String.eqb (i2_title a) (i2_title b) && String.eqb (i2_version a) (i2_version b) && String.eqb (i2_desc a) (i2_desc b)
+  && String.eqb (i2_host a) (i2_host b).
+Definition c12i_case := (iapp * option info3 * option info2)%type.
+Definition c12i_ok (c:c12i_case) : bool :=
+  match snd (fst c) with Some d => info3_eqb (export_info3 info_tables_of_source (fun l => l) (fst (fst c))) d | None => true end
+  && match snd c with Some d => info2_eqb (export_info2 info_tables_of_source (fst (fst c))) d | None => true end.
+Definition IA (n l:string) (attrs:list (N * (string * aval))) := {| ia_name := n; ia_long := l; ia_attrs := attrs |}.
+Definition I3 t v d cn ce cu ext srv :=
+  {| i3_title := t; i3_version := v; i3_desc := d; i3_cname := cn; i3_cemail := ce; i3_curl := cu; i3_ext := ext; i3_servers := srv |}.
+Definition I2 t v d h := {| i2_title := t; i2_version := v; i2_desc := d; i2_host := h |}.
